@@ -6,6 +6,7 @@ package main
 import (
 	"context"
 	"errors"
+	"fmt"
 	"io"
 	"strconv"
 	"sync"
@@ -28,13 +29,17 @@ func (e ent) String() string {
 
 func makeValue(pay int64) []byte {
 	v := &proto.LogEntryValue{Value: &proto.LogEntryValue_Requests{Requests: &proto.WriteRequests{Writes: []*proto.WriteRequest{
-		{Puts: []*proto.PutRequest{{Key: "k", Value: []byte(strconv.FormatInt(pay, 10))}}}}}}}
+		{Puts: []*proto.PutRequest{{Key: "k", Value: payBytes(pay)}}}}}}}
 	b, err := pb.Marshal(v)
 	if err != nil {
 		panic(err)
 	}
 	return b
 }
+
+// payBytes: payload ids are written with a fixed width, so that entries have the same encoded size and record
+// boundaries line up again after a truncation followed by new appends
+func payBytes(pay int64) []byte { return []byte(fmt.Sprintf("%08d", pay)) }
 
 func payOf(value []byte) int64 {
 	v := &proto.LogEntryValue{}
@@ -77,6 +82,9 @@ type walEvents interface {
 	onAppended(g *gateWal, e ent, leader bool)
 	onTruncated(g *gateWal, head int64)
 	onCleared(g *gateWal)
+	// onCall is invoked before every WAL call (kind: append, appendsync, sync, trunc, rev, reader, read, last, first, clear):
+	// the schedule can park the handler that makes the call right there
+	onCall(kind string)
 }
 
 type gateFactory struct {
@@ -118,6 +126,7 @@ func (g *gateWal) Append(e *proto.LogEntry) error {
 	return err
 }
 func (g *gateWal) AppendAsync(e *proto.LogEntry) error {
+	g.ev.onCall("append")
 	err := g.inner.AppendAsync(e)
 	if err == nil {
 		g.ev.onAppended(g, ent{e.Term, e.Offset, payOf(e.Value)}, false)
@@ -132,6 +141,7 @@ func (g *gateWal) AppendAndSync(e *proto.LogEntry, cb func(error)) {
 		close(at)
 		<-ga
 	}
+	g.ev.onCall("appendsync")
 	g.mu.Lock()
 	seq := g.writeSeq
 	g.mu.Unlock()
@@ -192,6 +202,7 @@ func (g *gateWal) Sync(ctx context.Context) error {
 		close(pk.arrived)
 		<-pk.release
 	}
+	g.ev.onCall("sync")
 	return err
 }
 
@@ -223,17 +234,46 @@ func (g *gateWal) nPending() int {
 }
 
 func (g *gateWal) TruncateLog(o int64) (int64, error) {
+	g.ev.onCall("trunc")
 	h, err := g.inner.TruncateLog(o)
 	if err == nil {
 		g.ev.onTruncated(g, h)
 	}
 	return h, err
 }
-func (g *gateWal) NewReader(after int64) (wal.Reader, error) { return g.inner.NewReader(after) }
-func (g *gateWal) NewReverseReader() (wal.Reader, error)     { return g.inner.NewReverseReader() }
-func (g *gateWal) LastOffset() int64                         { return g.inner.LastOffset() }
-func (g *gateWal) FirstOffset() int64                        { return g.inner.FirstOffset() }
+
+type gateReader struct {
+	inner wal.Reader
+	ev    walEvents
+}
+
+func (r *gateReader) Close() error  { return r.inner.Close() }
+func (r *gateReader) HasNext() bool { return r.inner.HasNext() }
+func (r *gateReader) ReadNext() (*proto.LogEntry, error) {
+	r.ev.onCall("read")
+	return r.inner.ReadNext()
+}
+
+func (g *gateWal) NewReader(after int64) (wal.Reader, error) {
+	g.ev.onCall("reader")
+	r, err := g.inner.NewReader(after)
+	if err != nil {
+		return nil, err
+	}
+	return &gateReader{r, g.ev}, nil
+}
+func (g *gateWal) NewReverseReader() (wal.Reader, error) {
+	g.ev.onCall("rev")
+	r, err := g.inner.NewReverseReader()
+	if err != nil {
+		return nil, err
+	}
+	return &gateReader{r, g.ev}, nil
+}
+func (g *gateWal) LastOffset() int64  { g.ev.onCall("last"); return g.inner.LastOffset() }
+func (g *gateWal) FirstOffset() int64 { g.ev.onCall("first"); return g.inner.FirstOffset() }
 func (g *gateWal) Clear() error {
+	g.ev.onCall("clear")
 	err := g.inner.Clear()
 	if err == nil {
 		g.ev.onCleared(g)
